@@ -672,3 +672,52 @@ package core
 //@   loop 4 invariant self.prenodes != nil && forall n core.Nodable :: has(refs, n) == atloop(has(refs, n))
 //@   loop 4 invariant fresh(self.prenodes) && alloc(self.prenodes) && forall x *core.Node :: x.postnodes != self.prenodes
 //@   loop 4 invariant forall n core.Nodable :: visited(n) ==> has(self.prenodes, fn(core.Nodable.GetFQName, n))
+
+// ---------------------------------------------------------------- C11 the identifier of a nested fork names every map key
+// Ghost event: keywritten[k] counts writeSafeKey(_, k).  ForkId.forkId(buf, start), when it
+// succeeds on parts that are all determined, non-empty and allowed, has written the key of
+// EVERY map-key part at or after start (so forks that differ in a map key get different
+// identifiers) - in particular a map-key part that follows array parts is not skipped.
+//@ func core.writeSafeKey property C11
+//@   trusted
+//@   modifies ghost(keywritten)
+//@   ensures ghost(keywritten)[k] == old(ghost(keywritten)[k]) + 1
+//@   ensures forall x string :: x != k ==> ghost(keywritten)[x] == old(ghost(keywritten)[x])
+
+//@ iface core.ForkIdPart.Mode property C11
+//@   pure
+//@   opt deterministic on
+//@ iface core.ForkIdPart.IndexSource property C11
+//@   pure
+//@   opt deterministic on
+//@ iface core.ForkIdPart.MapKey property C11
+//@   pure
+//@   opt deterministic on
+//@ iface core.ForkIdPart.ArrayIndex property C11
+//@   pure
+//@   opt deterministic on
+//@ iface core.ForkIdRange.Length property C11
+//@   pure
+//@   opt deterministic on
+//@ iface core.ForkIdRange.Allow property C11
+//@   pure
+//@   opt deterministic on
+//@ func core.ForkSourcePart.GetRange property C11
+//@   trusted
+//@   pure
+//@   opt deterministic on
+//@ func core.ForkId.writeForkIndex property C11
+//@   trusted
+//@   pure
+//@ iface syntax.MapCallSource.ArrayLength property C11
+//@   pure
+//@   opt deterministic on
+
+//@ func core.ForkId.forkId property C11
+//@   requires 0 <= start && start <= len(f) && buf != nil
+//@   requires forall k :: 0 <= k && k < len(f) ==> f[k] != nil && !isnil(f[k].Id) && f[k].Split != nil && !isnil(f[k].Split.Source) && isnil(fn(core.ForkIdPart.IndexSource, f[k].Id))
+//@   ensures @mapkeys isnil(result.1) ==> forall k :: start <= k && k < len(f) && fn(core.ForkIdPart.Mode, f[k].Id) == 2 && (forall j :: start <= j && j <= k ==> fn(core.ForkIdRange.Length, fn(core.ForkSourcePart.GetRange, f[j])) > 0) ==> ghost(keywritten)[fn(core.ForkIdPart.MapKey, f[k].Id)] > old(ghost(keywritten)[fn(core.ForkIdPart.MapKey, f[k].Id)])
+//@   ensures @monotone forall x string :: ghost(keywritten)[x] >= old(ghost(keywritten)[x])
+//@   loop 1 invariant 0 <= iter && start + iter <= len(f)
+//@   loop 1 invariant forall x string :: ghost(keywritten)[x] == old(ghost(keywritten)[x])
+//@   loop 1 invariant forall j :: start <= j && j < start + iter ==> fn(core.ForkIdPart.Mode, f[j].Id) != 2 && fn(core.ForkIdRange.Length, fn(core.ForkSourcePart.GetRange, f[j])) > 0
